@@ -173,6 +173,11 @@ def ownership_rules(prog, res, rule_prefix='own'):
                 if rhs is not None and _c18.contains_new(f, rhs):
                     res.ok(R('fresh-handle'), '%s::%s' % (q, h), f.loc(nid), 'assigned from a fresh allocation',
                            function=f.sig, expr='%s@%d' % (h, nid))
+                elif rhs is not None and [x for x in [rhs] + list(f.descendants(rhs)) if f.nodes[x]['k'] in ('CallExpr', 'CXXMemberCallExpr') and f.nodes[x].get('callee', {}).get('inrepo') and
+                                          not f.nodes[x]['callee'].get('const')] and not any(f.nodes[x]['k'] == 'MemberExpr' and f.nodes[x].get('member') == h for x in f.descendants(rhs)):
+                    # the value comes out of a library function the rule does not recognise as an allocation wrapper, and it is not another object's handle
+                    res.undecided(R('fresh-handle'), '%s::%s' % (q, h), f.loc(nid), 'handle %s is assigned from the result of a function the rule cannot classify as a fresh allocation [shape not read by the rule]' % h,
+                                  function=f.sig, expr=h)
                 else:
                     res.viol(R('fresh-handle'), '%s::%s' % (q, h), f.loc(nid),
                              'handle %s is assigned from something that is not a fresh allocation: the object now shares its payload' % h,
